@@ -45,7 +45,7 @@ def generate(tier, seed):
             cases.append({"kind": "enum", "len": length, "lo": lo, "hi": hi, "P": P})
     for k in range(150 if tier == "quick" else 5000):
         cases.append({"kind": "tree", "k": k})
-    for k in range(4 if tier == "quick" else 40):
+    for k in range(8 if tier == "quick" else 40):
         cases.append({"kind": "order", "k": k})
     return cases
 
@@ -287,7 +287,7 @@ def run_order(case, ctx, res):
         dep5 = root / ".reuse" / "dep5"
         dep5.write_text(HEADER + "\nFiles: *\nCopyright: 2020 J\nLicense: MIT\n")
         (root / "a.txt").write_text("x\n")
-        mode = case["k"] % 3
+        mode = case["k"] % 4
         if mode == 0:
             FS.begin()
             try:
@@ -317,6 +317,22 @@ def run_order(case, ctx, res):
                 res.violation("dep5-removed-although-write-failed", f"writing REUSE.toml failed (injected ENOSPC) but dep5 is gone; exit {r.exit_code} exc {r.exc_type}")
             res.cell("write-fault:" + ("escaped-" + str(r.exc_type) if r.escaped else f"exit-{r.exit_code}"))
             res.sigs.add("write-fault")
+        elif mode == 3:
+            # the failure comes while the data is written / flushed, not when the file is opened: REUSE.toml -> /dev/full
+            if not os.path.exists("/dev/full"):
+                res.cell("no-dev-full")
+                return
+            os.symlink("/dev/full", root / "REUSE.toml")
+            r = run_cli(["--no-multiprocessing", "--root", str(root), "convert-dep5"], cwd=str(root))
+            res.n += 1
+            ctx.count("write_fault_runs")
+            if not dep5.exists():
+                res.violation("dep5-removed-although-write-failed", f"REUSE.toml could not be written (ENOSPC while writing to /dev/full) but dep5 is gone; "
+                              f"exit {r.exit_code} exc {r.exc_type}")
+            elif r.exit_code == 0 and not r.escaped:
+                res.violation("write-failure-not-noticed", "writing to /dev/full reported success")
+            res.cell("flush-fault:" + ("escaped-" + str(r.exc_type) if r.escaped else f"exit-{r.exit_code}"))
+            res.sigs.add("flush-fault")
         else:
             dep5.unlink()
             before = snapshot(root)
